@@ -66,4 +66,64 @@ theorem eval_guard (f sc : Nat) (n c : Node) (h : n.name = "guard") (hc : n.chil
     eval (f+1) sc n = (do let v ← eval f sc c; pure (.bool (truthy v))) := by
   rw [eval]; simp [h, hc, child]
 
+/-! ### try -/
+
+/-- the deferred finally block of a try node whose last child is `last` (its scope is made first) -/
+def tryFin (f sc : Nat) (last : Node) : M (Option (M Val)) :=
+  if last.name == "finally" then do
+    let fs ← newChild sc (← scopeName last)
+    pure (some (do eval f fs (← child last 0)))
+  else pure none
+
+/-- the except clauses of a try node, in source order, as handlers -/
+def tryHandlers (f sc : Nat) (clauses : List Node) : List Handler :=
+  (clauses.filter (·.name == "except")).map (exceptHandler f sc)
+
+/-- the (first) otherwise clause -/
+def tryOtherwise (f sc : Nat) (clauses : List Node) : Option (M Val) :=
+  (clauses.find? (·.name == "otherwise")).map fun o => do
+    let ovs ← newChild sc (← scopeName o)
+    eval f ovs (← child o 0)
+
+theorem filterMap_ite {α β : Type} (p : α → Prop) [DecidablePred p] (g : α → β) (l : List α) :
+    l.filterMap (fun c => if p c then some (g c) else none) = (l.filter (fun c => decide (p c))).map g := by
+  induction l with
+  | nil => rfl
+  | cons c cs ih =>
+    by_cases hc : p c
+    · simp [List.filterMap_cons, List.filter_cons, hc, ih]
+    · simp [List.filterMap_cons, List.filter_cons, hc, ih]
+
+theorem eval_try (f sc : Nat) (n : Node) (h : n.name = "try") : eval (f+1) sc n = evalTry f sc n := by
+  rw [eval]; simp [h]
+
+/-- **eval_try_is_tryFinally_tryCore_dispatchExcept**: a try node is `tryFinally` around `tryCore` of its
+    block, its except clauses (in source order) and its otherwise clause; `dispatchExcept` (inside
+    `tryCore`) walks the handlers -/
+theorem evalTry_is_tryFinally_tryCore (f sc : Nat) (n body last : Node) (clauses : List Node)
+    (hc : n.children = some body :: clauses.map some) (hl : (body :: clauses).getLast? = some last) :
+    evalTry (f+1) sc n = (do
+      let fin ← tryFin f sc last
+      tryFinally (do
+        let tvs ← newChild sc (← scopeName n)
+        tryCore (eval f tvs body) (tryHandlers f sc clauses) (tryOtherwise f sc clauses)) fin) := by
+  have hl' : n.children.getLast? = some (some last) := by
+    rw [hc, show some body :: clauses.map some = (body :: clauses).map some from rfl, List.getLast?_map, hl]; rfl
+  have hdec : (fun c : Node => decide (c.name = "except")) = (fun x : Node => x.name == "except") := by
+    funext c; by_cases h : c.name = "except" <;> simp [h]
+  rw [evalTry]
+  simp only [hl', pure_bind]
+  cases hfo : clauses.find? (·.name == "otherwise") <;>
+    simp [hc, child, tryFin, tryOtherwise, tryHandlers, hfo, Function.comp_def, filterMap_ite, hdec]
+
+theorem eval_try_is_tryFinally_tryCore_dispatchExcept (f sc : Nat) (n body last : Node) (clauses : List Node)
+    (h : n.name = "try") (hc : n.children = some body :: clauses.map some)
+    (hl : (body :: clauses).getLast? = some last) :
+    eval (f+2) sc n = (do
+      let fin ← tryFin f sc last
+      tryFinally (do
+        let tvs ← newChild sc (← scopeName n)
+        tryCore (eval f tvs body) (tryHandlers f sc clauses) (tryOtherwise f sc clauses)) fin) := by
+  rw [eval_try _ _ _ h, evalTry_is_tryFinally_tryCore f sc n body last clauses hc hl]
+
 end Ecal.Ev
